@@ -2,7 +2,14 @@ package main
 
 // C30 — minimum fee and size limits use the transaction's real size.
 //
-//	op:  fee <era> <a> <b> <maxTxSize> <fee> <n> <txhex>
+//	op:  fee <era> <a> <b> <maxTxSize> <fee> <n> <txhex> [<mode> [<nOut>]]
+//	     mode r: txhex is decoded, then the envelope's stored bytes are dropped, so that the
+//	             size comes from the re-assembly path (stored body/witness bytes under a
+//	             canonical envelope header)
+//	     mode s: the era's transaction struct is built directly from (fee, nOut) — no stored
+//	             bytes anywhere — and txhex is what the library's encoder makes of it (computed
+//	             by the generator, re-checked here): the no-stored-bytes fallback of TxSizeForFee
+//	             and of the max-size rule
 //	     a, b = MinFeeA/MinFeeB, fee = the fee written in the body (checked
 //	     against the decoded transaction), n = number of envelope components
 //	     (checked against an independent decode of the envelope), txhex = the
@@ -15,6 +22,7 @@ package main
 // verdicts of the FeeTooSmall / MaxTxSize errors over the era's whole rule list.
 
 import (
+	"bytes"
 	"errors"
 	"fmt"
 	"math/big"
@@ -22,6 +30,7 @@ import (
 	"strings"
 
 	"github.com/blinklabs-io/gouroboros/cbor"
+	"github.com/blinklabs-io/gouroboros/ledger/allegra"
 	"github.com/blinklabs-io/gouroboros/ledger/alonzo"
 	"github.com/blinklabs-io/gouroboros/ledger/babbage"
 	"github.com/blinklabs-io/gouroboros/ledger/common"
@@ -179,14 +188,37 @@ func genC30(r *Rand, n int, tier string, emit func(string)) {
 		default:
 			max = 16384
 		}
-		emit(fmt.Sprintf("fee %s %d %d %d %d %d %s", era, a, b, max, fee, nEnv, hexs(raw)))
+		line := fmt.Sprintf("fee %s %d %d %d %d %d %s", era, a, b, max, fee, nEnv, hexs(raw))
+		// re-assembly path: only for the era's own envelope arity (the re-assembled envelope has it)
+		ownArity := (ei < 3 && nEnv == 3) || (ei >= 3 && ei <= 5 && nEnv == 4) || (ei == 6 && nEnv == 3)
+		if ownArity && r.Chance(1, 5) {
+			line += " r"
+		}
+		emit(line)
+		if r.Chance(1, 6) {
+			c30GenModes(r, emit)
+		}
 	}
 }
 
 func runC30(op string) string {
 	f := strings.Fields(op)
-	if len(f) != 8 || f[0] != "fee" || g1EraIndex(f[1]) < 0 {
+	if len(f) < 8 || len(f) > 10 || f[0] != "fee" || g1EraIndex(f[1]) < 0 {
 		return "bad-op"
+	}
+	mode, nOut := "", 0
+	if len(f) >= 9 {
+		mode = f[8]
+		if (mode != "r" && mode != "s") || (mode == "s") != (len(f) == 10) {
+			return "bad-op"
+		}
+		if mode == "s" {
+			v, err := strconv.Atoi(f[9])
+			if err != nil || v < 0 || v > 1000 {
+				return "bad-op"
+			}
+			nOut = v
+		}
 	}
 	era := f[1]
 	a, e1 := strconv.ParseUint(f[2], 10, 64)
@@ -203,9 +235,32 @@ func runC30(op string) string {
 	if _, err := cbor.Decode(raw, &comps); err != nil || len(comps) != nEnv {
 		return "n-mismatch"
 	}
-	tx, derr := g1DecodeTx(era, raw)
-	if derr != nil {
-		return "decode-err"
+	var tx common.Transaction
+	if mode == "s" {
+		tx = c30StructTx(era, fee, nOut)
+		if tx == nil {
+			return "bad-op"
+		}
+		enc, err := cbor.Encode(tx)
+		if err != nil || !bytes.Equal(enc, raw) {
+			return "enc-mismatch"
+		}
+		if len(tx.Cbor()) != 0 {
+			return "has-stored-bytes"
+		}
+	} else {
+		var derr error
+		tx, derr = g1DecodeTx(era, raw)
+		if derr != nil {
+			return "decode-err"
+		}
+		if mode == "r" {
+			st, ok := tx.(interface{ SetCbor([]byte) })
+			if !ok {
+				return "bad-op"
+			}
+			st.SetCbor(nil)
+		}
 	}
 	if tx.Fee() == nil || !tx.Fee().IsUint64() || tx.Fee().Uint64() != fee {
 		return "fee-mismatch"
@@ -265,4 +320,105 @@ func runC30(op string) string {
 		return "IMPURE " + v1 + " then " + v2
 	}
 	return fmt.Sprintf("size=%s minfee=%s %s", sizeS, mfS, v1)
+}
+
+// c30StructTx builds the era's transaction struct from fields only (no stored bytes).
+func c30StructTx(era string, fee uint64, nOut int) common.Transaction {
+	in := shelley.NewShelleyTransactionInput(fmt.Sprintf("%x", g1TxHash(1)), 0)
+	addr := func(i int) common.Address {
+		a, _ := common.NewAddressFromBytes(g1Addr(byte(i + 1)))
+		return a
+	}
+	shOuts := []shelley.ShelleyTransactionOutput{}
+	maOuts := []mary.MaryTransactionOutput{}
+	alOuts := []alonzo.AlonzoTransactionOutput{}
+	baOuts := []babbage.BabbageTransactionOutput{}
+	for i := 0; i < nOut; i++ {
+		c := uint64(1000000 + i)
+		shOuts = append(shOuts, shelley.ShelleyTransactionOutput{OutputAddress: addr(i), OutputAmount: c})
+		maOuts = append(maOuts, mary.MaryTransactionOutput{OutputAddress: addr(i), OutputAmount: mary.MaryTransactionOutputValue{Amount: c}})
+		alOuts = append(alOuts, alonzo.AlonzoTransactionOutput{OutputAddress: addr(i), OutputAmount: mary.MaryTransactionOutputValue{Amount: c}})
+		baOuts = append(baOuts, babbage.BabbageTransactionOutput{OutputAddress: addr(i), OutputAmount: mary.MaryTransactionOutputValue{Amount: c}})
+	}
+	shIns := shelley.NewShelleyTransactionInputSet([]shelley.ShelleyTransactionInput{in})
+	switch era {
+	case "shelley":
+		t := &shelley.ShelleyTransaction{}
+		t.Body.TxInputs, t.Body.TxOutputs, t.Body.TxFee = shIns, shOuts, fee
+		return t
+	case "allegra":
+		t := &allegra.AllegraTransaction{}
+		t.Body.TxInputs, t.Body.TxOutputs, t.Body.TxFee = shIns, shOuts, fee
+		return t
+	case "mary":
+		t := &mary.MaryTransaction{}
+		t.Body.TxInputs, t.Body.TxOutputs, t.Body.TxFee = shIns, maOuts, fee
+		return t
+	case "alonzo":
+		t := &alonzo.AlonzoTransaction{TxIsValid: true}
+		t.Body.TxInputs, t.Body.TxOutputs, t.Body.TxFee = shIns, alOuts, fee
+		return t
+	case "babbage":
+		t := &babbage.BabbageTransaction{TxIsValid: true}
+		t.Body.TxInputs, t.Body.TxOutputs, t.Body.TxFee = shIns, baOuts, fee
+		return t
+	case "conway":
+		t := &conway.ConwayTransaction{TxIsValid: true}
+		t.Body.TxInputs = conway.NewConwayTransactionInputSet([]shelley.ShelleyTransactionInput{in})
+		t.Body.TxOutputs, t.Body.TxFee = baOuts, fee
+		return t
+	case "dijkstra":
+		t := &dijkstra.DijkstraTransaction{TxIsValid: true}
+		t.Body.TxInputs = conway.NewConwayTransactionInputSet([]shelley.ShelleyTransactionInput{in})
+		for i := range baOuts {
+			o := baOuts[i]
+			t.Body.TxOutputs = append(t.Body.TxOutputs, dijkstra.DijkstraTransactionOutput{Output: &o})
+		}
+		t.Body.TxFee = fee
+		return t
+	}
+	return nil
+}
+
+// c30GenModes emits the re-assembly and struct-built variants (called from genC30).
+func c30GenModes(r *Rand, emit func(string)) {
+	era := g1Eras[r.Intn(len(g1Eras))]
+	a, b := uint64(r.Intn(1000)), uint64(r.Intn(1000000))
+	if r.Chance(1, 6) {
+		a, b = r.EdgeU64(), r.EdgeU64()
+	}
+	nOut := Pick(r, 0, 1, 2, 5, 30)
+	// struct-built: encode with a placeholder fee to learn the size, then aim at the threshold
+	probe := c30StructTx(era, 1<<40, nOut) // 8-byte... the encoder picks the width from the value
+	enc, err := cbor.Encode(probe)
+	if err != nil {
+		return
+	}
+	size := uint64(len(enc))
+	if ei := g1EraIndex(era); ei >= 3 && ei <= 5 {
+		size--
+	}
+	t := new(big.Int).Mul(new(big.Int).SetUint64(a), new(big.Int).SetUint64(size))
+	t.Add(t, new(big.Int).SetUint64(b))
+	fee := uint64(1 << 40)
+	if t.IsUint64() && t.Uint64() >= 1<<32 {
+		fee = t.Uint64() - uint64(r.Intn(2)) // same 8-byte width as the probe: exact threshold or one below
+	} else if t.IsUint64() {
+		fee = t.Uint64() + uint64(r.Intn(3)) // narrower fee, smaller transaction: at or above the real threshold
+	}
+	if r.Chance(1, 5) {
+		fee = uint64(r.Intn(3))
+	}
+	tx := c30StructTx(era, fee, nOut)
+	enc, err = cbor.Encode(tx)
+	if err != nil {
+		return
+	}
+	var comps []cbor.RawMessage
+	if _, err := cbor.Decode(enc, &comps); err != nil {
+		return
+	}
+	l := uint64(len(enc))
+	max := Pick(r, l, l-1, l+1, uint64(16384))
+	emit(fmt.Sprintf("fee %s %d %d %d %d %d %s s %d", era, a, b, max, fee, len(comps), hexs(enc), nOut))
 }
